@@ -118,6 +118,7 @@ def run(ctx):
     except D.Unrecognised as e:
         ctx.unrecognised("C14.nodes", "C14.nodes:node_action", w.where(f), str(e))
     reply_fallback_rule(ctx, w, f, paths)
+    scheme_delimiter_rule(ctx, w, f)
     fc = w.fn(CL + "<impl ruma_html::sanitizer_config::SanitizerConfig>::clean_node")
     dex2 = D.Dex(w.lookup, adt_discr=w.adt_discr, unroll=1, effects=lambda n: n.startswith("ruma_html::"))
     paths = dex2.paths(fc, [D.sym("self"), D.sym("node"), D.sym("depth")])
@@ -407,3 +408,54 @@ def reply_fallback_rule(ctx, w, node_action, paths):
                   bad_msg="an element can be kept or unwrapped before the set holding the reply-fallback request is consulted")
     else:
         ctx.unrecognised("C14.reply-fallback", "C14.reply-fallback:shape", w.where(b), f"remove_reply_fallback() writes {sorted(written)} in a form this rule does not model")
+
+
+def scheme_delimiter_rule(ctx, w, node_action):
+    """C14.scheme-delimiter: a URI's scheme ends at the first ':' - the comparison with a scheme list has to involve that delimiter."""
+    from .C12 import decode_format_template
+    ctx.rule("C14.scheme-delimiter", "node_action (with the clean module's private helpers and its closures) compares the scheme of a link/image source INCLUDING its "
+                                     "`:` delimiter: either `value.starts_with(format!(\"{scheme}:\"))` or a split/find at ':' - a comparison of a mere prefix "
+                                     "(`https` matching `https+evil:`) lets other schemes through")
+    fam, todo = [], [node_action]
+    while todo:
+        g = todo.pop()
+        if g in fam:
+            continue
+        fam.append(g)
+        for h in w.all_fns():
+            if "body" in h and h["path"].startswith(g["path"] + "::{closure"):
+                todo.append(h)
+        for body in M.all_bodies(g):
+            for _, c in M.calls(body):
+                nm = M.callee_name(c)
+                h = w.lookup(nm)
+                if h is not None and "body" in h and nm.startswith(CL) and "<" not in nm[len(CL):] and "::" not in nm[len(CL):]:
+                    todo.append(h)          # private free helper of the clean module
+    with_colon, scheme_tests = [], 0
+    for g in fam:
+        for body in M.all_bodies(g):
+            # format_args! templates of this body (byte-string constants, possibly bound to a local first)
+            uses_fmt = any(M.callee_name(c).endswith("Arguments::<'a>::new") for _, c in M.calls(body))
+            consts = [st[2][1]["v"] for b_ in body["blocks"] for st in b_["s"] if st[0] == "=" and st[2][0] == "use" and isinstance(st[2][1], dict) and
+                      st[2][1].get("k") == "const" and str(st[2][1].get("ty", "")).startswith("&[u8;") and isinstance(st[2][1].get("v"), list)]
+            consts += [c["args"][0]["v"] for _, c in M.calls(body) if M.callee_name(c).endswith("Arguments::<'a>::new") and c["args"] and
+                       c["args"][0].get("k") == "const" and isinstance(c["args"][0].get("v"), list)]
+            for v in consts if uses_fmt else []:
+                pieces = decode_format_template([x for x in v if isinstance(x, int)])
+                if pieces and None in pieces:
+                    scheme_tests += 1
+                    i = pieces.index(None)
+                    if i + 1 < len(pieces) and isinstance(pieces[i + 1], str) and pieces[i + 1].startswith(":"):
+                        with_colon.append(("format", pieces))
+            for _, c in M.calls(body):
+                nm = M.callee_name(c)
+                if re.search(r"<impl str>::(split_once|find|split|splitn|strip_prefix|rfind|split_terminator|starts_with)$", nm) and len(c["args"]) >= 2:
+                    a = c["args"][1]
+                    if a.get("k") == "const" and a.get("v") in (":", 58, "://"):
+                        with_colon.append((nm.rsplit("::", 1)[-1], a.get("v")))
+                if re.search(r"<impl str>::(find|split|split_once|trim_start_matches|trim_matches)$", nm) and len(c["args"]) >= 2 and c["args"][1].get("k") != "const":
+                    scheme_tests += 1       # a predicate/closure pattern: cuts somewhere, not necessarily at ':'
+    ctx.check(bool(with_colon), "C14.scheme-delimiter", "C14.scheme-delimiter:node_action", w.where(node_action),
+              ok_msg=f"scheme comparison with its delimiter: {with_colon[:2]}",
+              bad_msg=f"no scheme comparison in node_action's code involves the ':' that ends a URI scheme ({scheme_tests} scheme-like tests, {len(fam)} functions "
+                      f"examined): a source whose scheme merely starts with an allowed scheme name is kept")
